@@ -49,7 +49,10 @@ flt = sys.argv[1] if len(sys.argv) > 1 else ""
 for fi, f in enumerate(sorted(glob.glob("/verif/seeded/C*-*/meta.json"))):
     if SHARD and fi % SHARD[1] != SHARD[0]: continue
     m = json.load(open(f)); d = os.path.dirname(f)
-    if os.environ.get("RCK_FILTER") and os.environ["RCK_FILTER"] not in m["id"]: continue
+    flt_ = os.environ.get("RCK_FILTER")
+    if flt_ == "ROUND1":
+        if "-r" in m["id"]: continue
+    elif flt_ and flt_ not in m["id"]: continue
     if flt and flt not in m["id"]: continue
     prop = m["breaks_property"]
     rc, o = sh(f"git apply {d}/patch.diff", cwd=f"{RC}/repo")
